@@ -12,6 +12,7 @@
 From Coq Require Import NArith ZArith List Bool Lia.
 From SFV Require Import Base.Bytes Base.BytesProofs Base.RsPrelude Gen.CodesGen Msgpack.Rmp Write.Writer
   Gen.StateGen Write.StateGenEq Ctx.Interner Ctx.InternerProofs Gen.InternGen Ctx.InternGenEq Gen.WriteCtxGen.
+From SFV Require NanBox.NanBoxProofs.
 Import ListNotations.
 Open Scope N_scope.
 
@@ -231,3 +232,86 @@ Proof.
 Qed.
 
 End W.
+
+(** * The exported functions [shopify_function_output_*] (the ABI entry points of provider/src/write.rs)
+
+    Also regenerated: each is [Context::with_mut(|context| ...)] around one method, with the conversion of its
+    arguments ([bool != 0]) and, for a string write, the packing of (status, pointer) into one double-width word;
+    the native [finalize].  They agree with [Writer.step] / [Writer.finalize] on related contexts. *)
+Section Wrappers.
+Variable W : N.
+Variable trap : bool.
+
+Lemma gbind_eta2 {A B} (m : gres (A * B)) : gbind m (fun '(a, b) => GOk (a, b)) = m.
+Proof. destruct m as [[a b]|]; reflexivity. Qed.
+
+Theorem gen_abi_new_bool gc c v : R gc c ->
+  agree_ctx gc c (Context_shopify_function_output_new_bool W trap gc v) (step W trap c (OBool v)).
+Proof. intros HR. unfold Context_shopify_function_output_new_bool. rewrite gbind_eta2. apply gen_ctx_write_bool. exact HR. Qed.
+
+Theorem gen_abi_new_null gc c : R gc c ->
+  agree_ctx gc c (Context_shopify_function_output_new_null W trap gc) (step W trap c ONull).
+Proof. intros HR. unfold Context_shopify_function_output_new_null. rewrite gbind_eta2. apply gen_ctx_write_nil. exact HR. Qed.
+
+Theorem gen_abi_new_i32 gc c z : R gc c ->
+  agree_ctx gc c (Context_shopify_function_output_new_i32 W trap gc z) (step W trap c (OI32 z)).
+Proof. intros HR. unfold Context_shopify_function_output_new_i32. rewrite gbind_eta2. apply gen_ctx_write_i32. exact HR. Qed.
+
+Theorem gen_abi_new_f64 gc c b : R gc c ->
+  agree_ctx gc c (Context_shopify_function_output_new_f64 W trap gc b) (step W trap c (OF64 b)).
+Proof. intros HR. unfold Context_shopify_function_output_new_f64. rewrite gbind_eta2. apply gen_ctx_write_f64. exact HR. Qed.
+
+Theorem gen_abi_new_object gc c len : R gc c ->
+  agree_ctx gc c (Context_shopify_function_output_new_object W trap gc len) (step W trap c (OStartObj len)).
+Proof. intros HR. unfold Context_shopify_function_output_new_object. rewrite gbind_eta2. apply gen_ctx_start_object. exact HR. Qed.
+
+Theorem gen_abi_new_array gc c len : R gc c ->
+  agree_ctx gc c (Context_shopify_function_output_new_array W trap gc len) (step W trap c (OStartArr len)).
+Proof. intros HR. unfold Context_shopify_function_output_new_array. rewrite gbind_eta2. apply gen_ctx_start_array. exact HR. Qed.
+
+Theorem gen_abi_finish_object gc c : R gc c ->
+  agree_ctx gc c (Context_shopify_function_output_finish_object W trap gc) (step W trap c OFinObj).
+Proof. intros HR. unfold Context_shopify_function_output_finish_object. rewrite gbind_eta2. apply gen_ctx_finish_object. exact HR. Qed.
+
+Theorem gen_abi_finish_array gc c : R gc c ->
+  agree_ctx gc c (Context_shopify_function_output_finish_array W trap gc) (step W trap c OFinArr).
+Proof. intros HR. unfold Context_shopify_function_output_finish_array. rewrite gbind_eta2. apply gen_ctx_finish_array. exact HR. Qed.
+
+Theorem gen_abi_new_interned gc c id : R gc c ->
+  (forall s, nthN (interned c) id = Some s -> lenN (out c) + 5 + lenN s < 2 ^ W) ->
+  lenN (concat (interned c)) < 2 ^ W ->
+  agree_ctx gc c (Context_shopify_function_output_new_interned_utf8_str W trap gc id) (step W trap c (OIStr id)).
+Proof. intros HR H1 H2. unfold Context_shopify_function_output_new_interned_utf8_str. rewrite gbind_eta2. apply gen_ctx_write_interned; assumption. Qed.
+
+(** the string write: the double-width result carries the status in its high word and the destination in its low word *)
+Theorem gen_abi_new_utf8_str gc len : 0 < W ->
+  match Context_allocate_utf8_str W trap gc len, Context_shopify_function_output_new_utf8_str W trap gc len with
+  | GOk (gc1, (code, dst)), GOk (gc2, packed) =>
+      gc2 = gc1 /\ (code < 2 ^ W -> ptr_val dst < 2 ^ W -> packed = code * 2 ^ W + ptr_val dst)
+  | GPanic _, GPanic _ => True
+  | _, _ => False
+  end.
+Proof.
+  intros HW. unfold Context_shopify_function_output_new_utf8_str.
+  destruct (Context_allocate_utf8_str W trap gc len) as [[gc1 [code dst]]|]; cbn [gbind]; [|exact I].
+  unfold u_shl, u_cast. destruct (N.ltb_spec W (2 * W)) as [_|Hc]; [|lia]. cbn [gbind].
+  split; [reflexivity|]. intros Hc Hp.
+  assert (H2 : 2 ^ (2 * W) = 2 ^ W * 2 ^ W) by (rewrite <- N.pow_add_r; f_equal; lia).
+  assert (Hpos : 0 < 2 ^ W) by (apply N.neq_0_lt_0, N.pow_nonzero; discriminate).
+  rewrite (N.mod_small code) by (rewrite H2; nia).
+  rewrite N.shiftl_mul_pow2. rewrite (N.mod_small (code * 2 ^ W)) by (rewrite H2; nia).
+  apply NanBoxProofs.lor_disjoint_add. exact Hp.
+Qed.
+
+Lemma state_eqb_conv s : State_eqb s State_End = state_eqb (StateGenEq.conv s) End.
+Proof. destruct s; reflexivity. Qed.
+
+(** the native finalize: refuses unless the root value is closed, hands out the output bytes, changes nothing *)
+Theorem gen_abi_finalize gc c : R gc c ->
+  Context_shopify_function_output_finalize_and_return_msgpack_bytes W trap gc = GOk (gc, finalize c).
+Proof.
+  intros [Hs Hk Ho Hi]. unfold Context_shopify_function_output_finalize_and_return_msgpack_bytes, finalize. cbv zeta.
+  rewrite state_eqb_conv, Hs. destruct (state_eqb (wstate c) End); cbn [negb]; [rewrite Ho|]; reflexivity.
+Qed.
+
+End Wrappers.
